@@ -236,8 +236,24 @@ def check(A):
             cts.get('js') == 'application/javascript' and cts.get('css') == 'text/css',
             'C20.content-type', 'the extension table maps html/js/css to their media types',
             'src/engineio/static_files.py', key='static-ctype-table')
-    ok = any(match("content_types.get(_e, 'application/octet-stream')", n) is not None
-             for n in ast.walk(gs.node) if isinstance(n, ast.Call))
+    ok = False
+    for p_ in [p for p in A.paths(A.enum(loop_bound=1, follow_handlers=False, max_paths=60000), gs)
+               if p.outcome == 'return'][:400]:
+        for e in p_.events:
+            if e.kind == 'write' and txt(e.target).endswith("['content_type']") and \
+                    'content_types.get(' in txt(e.expr):
+                c = match("content_types.get(_x.rsplit('.')[-1], 'application/octet-stream')",
+                          e.expr) or \
+                    match("content_types.get(_x.rsplit('.', 1)[-1], 'application/octet-stream')",
+                          e.expr) or \
+                    match("content_types.get(_x.split('.')[-1], 'application/octet-stream')",
+                          e.expr)
+                A.check(c is not None and txt(c['x']).endswith("['filename']"),
+                        'C20.content-type', 'the content type is looked up by the text after '
+                        'the LAST dot of the file name', A.site(gs, e.node), key='static-ext',
+                        detail=txt(e.expr),
+                        behaviour='jquery.min.js is served as application/octet-stream')
+                ok = c is not None
     guard = any(isinstance(n, ast.If) and match("'content_type' not in _f", n.test) is not None
                 for n in ast.walk(gs.node))
     A.check(ok and guard, 'C20.content-type', "the content type is the mapping's, else by "
